@@ -70,9 +70,51 @@ func findCookie(h http.Header, name string) *http.Cookie {
 }
 
 func (c *c17) start(ch *kernel.Chooser) string {
-	w := c.w
 	b := c.browsers[ch.Int(len(c.browsers))]
 	r := b.Get("https://web.sim/login")
+	return c.afterLogin(ch, b, r)
+}
+
+// concurrentStart: two browsers start a login at the same time; the scheduler interleaves the two handler
+// invocations at the point where the handler evaluates its URL parameter options.
+func (c *c17) concurrentStart(ch *kernel.Chooser) string {
+	sched := kernel.NewSched(c.w.Tape, fmt.Sprintf("pair:%d", c.step), 100)
+	c.rp.ParamHook = func() { sched.Park(sched.Current, "rp.urlparam", nil) }
+	defer func() { c.rp.ParamHook = nil }()
+	resps := make([]*world.Resp, 2)
+	for i := 0; i < 2; i++ {
+		i := i
+		name := fmt.Sprintf("t%d", i)
+		go func() {
+			if sched.Park(name, "start", nil) != "go" {
+				return
+			}
+			resps[i] = c.browsers[i].Get("https://web.sim/login")
+		}()
+	}
+	if err := sched.Run(func(bool) []kernel.Event {
+		var evs []kernel.Event
+		for _, p := range sched.ParkedTasks() {
+			p := p
+			evs = append(evs, kernel.Event{Name: "wake:" + p.Task + "@" + p.Point, Drain: true, Apply: func() { sched.Release(p.Task, "go") }})
+		}
+		return evs
+	}, nil); err != nil {
+		c.o.Infra = err.Error()
+	}
+	c.o.Probe("concurrent-starts")
+	c.o.Trace = append(c.o.Trace, strings.Join(sched.Trace, ","))
+	out := "concurrent start [" + strings.Join(sched.Trace, " ") + "]:"
+	for i, r := range resps {
+		if r != nil {
+			out += " | " + c.afterLogin(ch, c.browsers[i], r)
+		}
+	}
+	return out
+}
+
+func (c *c17) afterLogin(ch *kernel.Chooser, b *world.Browser, r *world.Resp) string {
+	w := c.w
 	if r.Err != nil || r.Status != http.StatusFound {
 		return fmt.Sprintf("start in %s -> %d %v", b.Name, r.Status, r.Err)
 	}
@@ -358,7 +400,9 @@ func RunC17(t *testing.T, spec kernel.Spec) *kernel.Outcome {
 		n := 30 + tape.Sub("cfg").Int(40)
 		steps(o, tape, n, func(i int, ch *kernel.Chooser) string {
 			c.step = i
-			switch x := ch.Int(10); {
+			switch x := ch.Int(11); {
+			case x == 10:
+				return c.concurrentStart(ch)
 			case x < 4 || i < 2:
 				return c.start(ch)
 			case x < 9:
